@@ -37,22 +37,20 @@ def _pick(draw, weighted):
     raise AssertionError
 
 
-def _draw_char(draw, flavour, allow_cr):
-    r = draw(_pct)
-    if flavour == 'plain' or r < 55:
-        return draw(_plain_ch)
-    if flavour == 'breaks':
-        return draw(_break_ch)
-    if flavour == 'cr':
-        return '\r' if allow_cr else draw(_break_ch)
-    if flavour == 'multi':
-        return draw(_multi_ch)
-    k = draw(st.integers(0, 2))  # mixed
-    if k == 0:
-        return draw(_break_ch)
-    if k == 1:
-        return '\r' if allow_cr else draw(_multi_ch)
-    return draw(_multi_ch)
+_ALPHABETS = {
+    'plain': PLAIN,
+    'breaks': PLAIN * 2 + BREAK_CHARS,
+    'cr': PLAIN * 2 + ['\r'] * 5,
+    'multi': PLAIN * 2 + MULTIBYTE * 2,
+    'mixed': PLAIN + BREAK_CHARS + ['\r'] * 3 + MULTIBYTE,
+}
+_LINES = {}
+for _f, _a in _ALPHABETS.items():
+    for _cr in (True, False):
+        _alph = [c for c in _a if _cr or c != '\r']
+        _LINES[(_f, _cr)] = st.lists(st.text(alphabet=st.sampled_from(_alph), min_size=0, max_size=7), min_size=0,
+                                     max_size=6)
+_eol = st.sampled_from(['\n', '\n', '\r\n'])
 
 
 def _fit(text, target, unit, filler):
@@ -79,16 +77,12 @@ def _fit(text, target, unit, filler):
 
 def draw_text(draw, buff, allow_cr=True, max_lines=6):
     flavour = draw(_flavour)
-    n = min(draw(_n_lines), max_lines)
-    lines = []
-    for _ in range(n):
-        ln = ''.join(_draw_char(draw, flavour, allow_cr) for _ in range(draw(_line_len)))
-        if flavour in ('cr', 'mixed') and allow_cr and draw(_pct) < 45:
-            ln += '\r'  # CR LF line end
-        lines.append(ln)
-    text = '\n'.join(lines)
+    lines = draw(_LINES[(flavour, allow_cr)])[:max_lines]
+    n = len(lines)
+    eol = draw(_eol) if (allow_cr and flavour in ('cr', 'mixed')) else '\n'  # CR LF line ends
+    text = eol.join(lines)
     if n and draw(_pct) < 70:
-        text += '\n'
+        text += eol
     r = draw(_pct)
     if r < 40 and (buff <= 64 or r < 3):
         # lengths around the buffer size, in characters and in bytes
